@@ -8,6 +8,7 @@ import (
 	"go/token"
 	"go/types"
 	"reflect"
+	"sort"
 	"strings"
 
 	"golang.org/x/tools/go/ssa"
@@ -909,6 +910,20 @@ func checkRedirect(r *Report, p *Prog, rule, orderRule string) {
 						}
 					}
 					r.Check(okT, rule, cons, p.InstrPos(call), "URI of the tracked request under err == nil", "the tracked request's URI is used although the lookup failed")
+					// ... and the request looked up is the one the RelayState names, nothing else (not a pending flow found
+					// in the cookie jar when no RelayState came back: that response lands on the default)
+					if tc := trackedLookupCall(lf.V); tc != nil && len(tc.Call.Args) >= 2 {
+						idx := tc.Call.Args[len(tc.Call.Args)-1]
+						var foreign []string
+						for _, il := range rg.Origins(RV{V: idx, C: lf.C}) {
+							iap := rg.Ctx(a, il.C).AP(il.V)
+							if !strings.Contains(iap, `.Form.Get(c:"RelayState")`) && !isEmptyStringConst(il.V) {
+								foreign = append(foreign, iap)
+							}
+						}
+						sort.Strings(foreign)
+						r.Check(len(foreign) == 0, rule, cons+" (named by RelayState)", p.InstrPos(tc), "the index looked up is the RelayState form value", "the tracked request is looked up under an index that is not the RelayState ("+strings.Join(foreign, ", ")+"): a response that names no flow, or another one, is completed at a pending flow's URL and that flow's cookie is cleared")
+					}
 				case strings.Contains(ap, `.Form.Get(c:"RelayState")`):
 					var noCookie, allow bool
 					for _, name := range B.Support(cnd) {
@@ -1485,4 +1500,31 @@ func phiSelectCond(fc *FuncCtx, v, want ssa.Value, depth int) *bddNode {
 		return nil
 	}
 	return acc
+}
+
+// trackedLookupCall: the GetTrackedRequest call whose first result v was read from (v = (*result).Field...).
+func trackedLookupCall(v ssa.Value) *ssa.Call {
+	for i := 0; i < 8 && v != nil; i++ {
+		switch x := v.(type) {
+		case *ssa.UnOp:
+			v = x.X
+		case *ssa.FieldAddr:
+			v = x.X
+		case *ssa.Field:
+			v = x.X
+		case *ssa.Extract:
+			v = x.Tuple
+		case *ssa.Call:
+			if x.Call.IsInvoke() && x.Call.Method.Name() == "GetTrackedRequest" {
+				return x
+			}
+			if sc := x.Call.StaticCallee(); sc != nil && sc.Name() == "GetTrackedRequest" {
+				return x
+			}
+			return nil
+		default:
+			return nil
+		}
+	}
+	return nil
 }
